@@ -14,3 +14,4 @@ import TradingVerif.Props.C07
 #print axioms TV.reset_ready
 #print axioms TV.firstBatch_nonempty
 #print axioms TV.record_times_increasing_episode
+#print axioms TV.entry_snapshot_consistent
